@@ -63,7 +63,9 @@ def gen_actions(rng):
             for _ in range(n):
                 q = rng.random()
                 if q < 0.6:
-                    items.append(['m', rng.choice(['text', 'json', 'binary'])])
+                    items.append(['m', rng.choice(['text', 'json', 'binary',
+                                                   'text', 'json', 'binary',
+                                                   'float'])])
                 elif q < 0.7:
                     items.append(['raw', '3'])
                 elif q < 0.76:
